@@ -234,6 +234,6 @@ def newReq : P String := do
   | .ok () => pure ("ok " ++ ridExpr r)
 
 def handlers : List (String × (List String → String)) :=
-  [("C17.ext", runP ext), ("C17.new", runP newReq)]
+  [("C17.ext", runP ext), ("C17.fs", runP ext), ("C17.new", runP newReq)]
 
 end Driver.C17
